@@ -18,7 +18,7 @@ HALF = {"exactly": (Fraction(1), 1), "about": (Fraction(2), 0), "around": (Fract
 
 def gen_numeral(rng):
     """(neg, mantissa digits as int, fractional digit count or None, exponent or None) and its written form"""
-    style = rng.choice(["int", "int0", "dec", "dec0", "sub1", "exp", "expdec", "big"])
+    style = rng.choice(["int", "int0", "dec", "dec0", "sub1", "exp", "expdec", "big", "point0", "exppoint0"])
     neg = rng.random() < 0.3
     exp = None
     if style == "int":
@@ -39,10 +39,16 @@ def gen_numeral(rng):
     elif style == "expdec":
         f = rng.randint(1, 3)
         m, exp = rng.randint(10, 9999), rng.randint(-4, 5)
+    elif style == "point0":         # a written decimal point with no fractional digits: every digit before it is significant ("200.")
+        m, f = rng.choice([rng.randint(1, 99) * 10 ** rng.randint(1, 3), rng.randint(1, 999)]), 0
+    elif style == "exppoint0":      # "20.e1"
+        m, f, exp = rng.choice([rng.randint(1, 99) * 10 ** rng.randint(1, 2), rng.randint(1, 99)]), 0, rng.randint(-4, 5)
     else:
         m, f = rng.randint(1000, 99999), None
     digits = str(m)
-    if f is not None:
+    if f == 0:
+        text = digits + "."
+    elif f is not None:
         digits = digits.rjust(f + 1, "0")
         text = digits[:-f] + "." + digits[-f:]
     else:
@@ -158,8 +164,12 @@ def body(chk):
     rng = chk.rng
     n_num = 60 if chk.tier == "quick" else 900
     items, flat = [], []
-    for _ in range(n_num):
-        num, text, style = gen_numeral(rng)
+    FIXED = [((False, 200, 0, None), "200.", "point0"), ((True, 200, 0, None), "-200.", "point0"), ((False, 10, 0, None), "10.", "point0"),
+             ((False, 20, 0, 1), "20.e1", "exppoint0"), ((False, 1500, 0, -2), "1500.e-2", "exppoint0"), ((False, 7, 0, None), "7.", "point0"),
+             ((False, 200, None, None), "200", "int0"), ((False, 2000, 1, None), "200.0", "dec0"), ((False, 5, None, 3), "5e3", "exp"),
+             ((True, 125, 2, None), "-1.25", "dec"), ((False, 1, 3, None), "0.001", "sub1"), ((False, 90, None, None), "90", "int0")]
+    for k in range(len(FIXED) + n_num):
+        num, text, style = FIXED[k] if k < len(FIXED) else gen_numeral(rng)
         results = {}
         for kw in HEDGES + [""]:
             phrase = (kw + " " + text).strip()
